@@ -43,6 +43,7 @@ def add_hypothese(cn, transcript, score):
             tr_sym = transcript[tr_pointer]
             if cn_pointer == len(cn):
                 cn.append({None: cn_total_weight, tr_sym: score})
+                cn_pointer += 1
             else:
                 cn = cn[:cn_pointer] + [{None: cn_total_weight, tr_sym: score}] + cn[cn_pointer:]
                 cn_pointer += 1
